@@ -263,8 +263,7 @@ Definition op_connect (v : variant) (s : st) (r fail : Z) (cands : list key) : r
     | None => None
     | Some (loc, s1, _) =>
         if negb (fail =? 0) then
-          Some (if v_cleanup v then set_ids s1 (if is_nil loc then s_ids s1 else remove loc (s_ids s1))
-                else s1, [1; 4])
+          Some (if v_cleanup v then set_ids s1 (remove loc (s_ids s1)) else s1, [1; 4])
         else
           Some (add_connection s1 ch (repeat 193 8) [([0], loc)] 1 loc r 0 false, [0; ch])
     end.
@@ -415,34 +414,68 @@ Definition in_range (lo hi x : Z) : bool := (lo <=? x) && (x <=? hi).
 Definition step_v (v : variant) (s : st) (op : list Z) : res :=
   let bad := Some (s, [-1]) in
   match op with
-  | 1 :: r :: fail :: rest =>
-      match parse_cands (s_len s) rest with
-      | Some cands => op_connect v s r fail cands
-      | None => bad
-      end
-  | 2 :: kind :: r :: l :: t :: b :: dlen :: dcid =>
-      if in_range 0 3 kind && in_range 0 20 dlen && (Z.of_nat (length dcid) =? dlen)
-         && ((negb (kind =? 0)) || (dlen =? s_len s))
-      then op_datagram s kind r l t b dcid else bad
-  | 3 :: k :: stale :: rest =>
-      match parse_cands (s_len s) rest with
-      | Some cands => op_accept v s k stale cands
-      | None => bad
-      end
-  | [4; k; _] => op_reject s k
-  | 5 :: ch :: n :: rest =>
-      match parse_cands (s_len s) rest with
-      | Some cands => if (0 <=? ch) && in_range 0 64 n then op_issue s ch n cands else bad
-      | None => bad
-      end
-  | 6 :: ch :: seq :: allow :: rest =>
-      match parse_cands (s_len s) rest with
-      | Some cands => if (0 <=? ch) && (0 <=? seq) then op_retire s ch seq allow cands else bad
-      | None => bad
-      end
-  | [7; ch; r; t] => if 0 <=? ch then op_token v s ch r t else bad
-  | [8; ch] => if 0 <=? ch then op_drained v s ch else bad
-  | _ => bad
+  | [] => bad
+  | opc :: args =>
+      if opc =? 1 then
+        match args with
+        | r :: fail :: rest =>
+            match parse_cands (s_len s) rest with
+            | Some cands => op_connect v s r fail cands
+            | None => bad
+            end
+        | _ => bad
+        end
+      else if opc =? 2 then
+        match args with
+        | kind :: r :: l :: t :: b :: dlen :: dcid =>
+            if in_range 0 3 kind && in_range 0 20 dlen && (Z.of_nat (length dcid) =? dlen)
+               && ((negb (kind =? 0)) || (dlen =? s_len s))
+            then op_datagram s kind r l t b dcid else bad
+        | _ => bad
+        end
+      else if opc =? 3 then
+        match args with
+        | k :: stale :: rest =>
+            match parse_cands (s_len s) rest with
+            | Some cands => op_accept v s k stale cands
+            | None => bad
+            end
+        | _ => bad
+        end
+      else if opc =? 4 then
+        match args with
+        | [k; _] => op_reject s k
+        | _ => bad
+        end
+      else if opc =? 5 then
+        match args with
+        | ch :: n :: rest =>
+            match parse_cands (s_len s) rest with
+            | Some cands => if (0 <=? ch) && in_range 0 64 n then op_issue s ch n cands else bad
+            | None => bad
+            end
+        | _ => bad
+        end
+      else if opc =? 6 then
+        match args with
+        | ch :: seq :: allow :: rest =>
+            match parse_cands (s_len s) rest with
+            | Some cands => if (0 <=? ch) && (0 <=? seq) then op_retire s ch seq allow cands else bad
+            | None => bad
+            end
+        | _ => bad
+        end
+      else if opc =? 7 then
+        match args with
+        | [ch; r; t] => if 0 <=? ch then op_token v s ch r t else bad
+        | _ => bad
+        end
+      else if opc =? 8 then
+        match args with
+        | [ch] => if 0 <=? ch then op_drained v s ch else bad
+        | _ => bad
+        end
+      else bad
   end.
 
 (** The interpreter of the hook: op 0 creates the endpoint. *)
